@@ -52,7 +52,7 @@ META = {
                     "guards only compare exactly computed scalars (cannot flip between back ends)",
                     "programs on which kind inference cannot succeed are outside the subset (discarded, counted)"],
     "probes": ["step_failed", "step_switched", "step_raised", "compiled", "ret_compared", "structure_user_type",
-               "two_user_types", "twin_phase", "earlier_generation_from_same_objects"],
+               "two_user_types", "twin_phase", "earlier_generation_from_same_objects", "instrumented_module"],
  },
  "C12": {
     "level": "exploration",
@@ -75,7 +75,7 @@ META = {
                     "scripts in which a Raise stops the program are excluded (the property is about runs "
                     "followed by shutdown)"],
     "probes": ["step_failed", "step_switched", "ut_temp_live_across_exit", "ut_move", "compiled", "shutdown_ok",
-               "structure_user_type", "two_user_types", "twin_phase", "earlier_generation_from_same_objects"],
+               "structure_user_type", "two_user_types", "twin_phase", "earlier_generation_from_same_objects", "instrumented_module"],
  },
 }
 
@@ -107,6 +107,8 @@ def yield_components(ops, acc=None):
 
 
 def lit(v):
+    if v != v:
+        return "ieee_value(1d0, ieee_quiet_nan)"
     s = repr(float(v))
     if "e" in s:
         s = s.replace("e", "d")
@@ -124,6 +126,7 @@ def make_driver(sc, nmgr, pers, yields, n_elem):
     a = L.append
     a("program driver")
     struct = getattr(sc, "struct", None)
+    a("  use, intrinsic :: ieee_arithmetic")
     a("  use m, only: dagrt_state_type, dagrt_initialize => initialize, dagrt_run => run, &")
     a("    dagrt_shutdown => shutdown" + (", ytype" if struct else ""))
     a("  implicit none")
@@ -344,9 +347,14 @@ def interp_reference(ctx, code, twins, sc, n_runs, has_y):
             raise Discard("ill-defined:interpreter-raises:" + type(e).__name__)
         store = {k: (np.array(v, dtype=float).copy() if isinstance(v, np.ndarray) else v)
                  for k, v in it.context.items() if is_persistent(k)}
+        nan_ok = getattr(sc, "has_nan", False)     # (the script starts from a NaN on purpose)
         for k, v in store.items():
-            bad = (not np.all(np.isfinite(v))) if isinstance(v, np.ndarray) else (
-                not isinstance(v, (bool, np.bool_)) and not math.isfinite(v))
+            if nan_ok:
+                bad = bool(np.any(np.isinf(v))) if isinstance(v, np.ndarray) else (
+                    not isinstance(v, (bool, np.bool_)) and math.isinf(v))
+            else:
+                bad = (not np.all(np.isfinite(v))) if isinstance(v, np.ndarray) else (
+                    not isinstance(v, (bool, np.bool_)) and not math.isfinite(v))
             big = (np.any(np.abs(v) > 1e100)) if isinstance(v, np.ndarray) else (
                 not isinstance(v, (bool, np.bool_)) and abs(v) > 1e100)
             if bad or big:
@@ -447,7 +455,7 @@ def classify_sanitizer(stderr, text):
         m = re.search(r"m\.f90:(\d+):\d+: runtime error: (.*)", stderr)
         if m:
             site = stmt_for_line(text, int(m.group(1)))
-            msg = m.group(2)
+            msg = re.sub(r"-?\d{7,}", "N", m.group(2))      # (wild values differ from process to process)
             cls = "null-deref" if "null pointer" in msg else "ubsan"
             return cls, _site_kind(site), "%s at [%s]" % (msg[:120], site)
     if "ERROR: LeakSanitizer" in stderr:
@@ -526,6 +534,13 @@ def run_fortran_engine(ctx, prop):
     code = DAGCode(phases, sc.initial)
     freg, twins = make_registry(sc)
     has_y = sorted(set().union(*[yield_components(ph.ops) for ph in sc.phases]))
+    with tape.span("generator_options"):
+        # generator configuration: the instrumented variant (phase counters and timers around every phase)
+        # must compute and release exactly what the plain one does
+        cg_options = {}
+        if tape.chance(0.45 if c12 else 0.25, "instrumentation"):
+            cg_options = dict(emit_instrumentation=True, timing_function="second")
+            ctx.count("probe:instrumented_module")
     with tape.span("earlier_generation"):
         if tape.chance(0.2, "earlier_generation"):
             # history: a separate generator object was given these very description objects before
@@ -550,7 +565,7 @@ def run_fortran_engine(ctx, prop):
     from dagrt.function_registry import FunctionNotFound
     try:
         cg = f.CodeGenerator("m", function_registry=freg, user_type_map=user_type_map(sc),
-                             module_preamble=module_preamble(sc))
+                             module_preamble=module_preamble(sc), **cg_options)
         import contextlib
         import io
         buf = io.StringIO()
@@ -670,6 +685,10 @@ def run_fortran_engine(ctx, prop):
         ctx.count("probe:array_overwritten_with_other_length", sc.n_shrink)
     if getattr(sc, "n_condpair", 0):
         ctx.count("probe:same_condition_twice", sc.n_condpair)
+    if getattr(sc, "has_nan", False):
+        ctx.count("probe:nan_in_initial_state")
+    if getattr(sc, "n_poly", 0):
+        ctx.count("probe:name_scalar_in_one_phase_array_in_another")
     if getattr(sc, "n_twin", 0):
         ctx.count("probe:twin_phase", sc.n_twin)
     if getattr(sc, "struct", None):
@@ -716,6 +735,8 @@ def _trim(s, n=1200):
     s = re.sub(r"/\S*dagrt-verif-f-\w+/", "", s)
     s = re.sub(r"\(BuildId: \w+\)", "", s)
     s = re.sub(r"T\d+", "T0", s)
+    # values read through wild pointers differ from process to process (address-space layout)
+    s = re.sub(r"-?\d{7,}", "N", s)
     keep = [ln for ln in s.splitlines() if "m.f90" in ln or "ERROR" in ln or "SUMMARY" in ln
             or "leaked" in ln or "runtime error" in ln or "refcount" in ln or "Direct leak" in ln]
     s = "\n".join(keep[:14]) if keep else s
